@@ -136,6 +136,9 @@ def run(chk, orch):
                     if not quick and chk.rng.random() < 0.3:
                         rs["threads"] = chk.rng.choice([1, 2, 4])
                         rs["sched"] = {"policy": chk.rng.choice(common.POLICIES), "seed": chk.rng.randrange(1000)}
+                    if not quick and chk.rng.random() < 0.15:
+                        # a second kill, this time of the resumed run (flaky cluster), then a final fault-free resume
+                        rs["fault2"] = {"kind": "kill", "index": chk.rng.randrange(2, 160), "phase": chk.rng.choice(["before", "after"])}
                     if not quick and chk.rng.random() < 0.1:
                         # options --resume accepts: the memory mode may change between the killed and the resumed run
                         rs["high_memory"] = not cell.get("high_memory", False)
@@ -167,6 +170,10 @@ def run(chk, orch):
                 chk.probes["crash_at_buffer_spill_or_close_flush"] += 1
             if a["resume"].get("threads") is not None:
                 chk.faults["resume_with_other_threads"] += 1
+            if (res.get("crash2") or {}).get("crashed"):
+                chk.faults["second_kill_during_resume"] += 1
+            if a["resume"].get("high_memory"):
+                chk.faults["resume_with_other_memory_mode"] += 1
             sym = symptom(ctl[wi], res)
             chk.sample({"workload": spec, "cell": cell, "crash": {"index": seq, "phase": phase, "stage": stage,
                                                                    "label": label}, "resumed_exit": res["exit"]})
